@@ -409,3 +409,65 @@ def any_none(cs: Seq[Cell], n: Int) -> Bool:
     if n <= 0:
         return False
     return any_none(cs, n - 1) or is_none_cell(cs[n - 1])
+
+
+# ---------------------------------------------------------------- suffix lemmas (C18: the JavaScript port scans src.substring(cidx))
+@lemma
+def skip_sp_suffix(s: Str, c: Int, p: Int, m: Int):
+    # scanning the suffix s[c:] from p is scanning s from c + p
+    props('C18')
+    requires(0 <= c and 0 <= p and c + p <= len(s) and m == len(s) - c - p and m >= 0)
+    ensures(skip_sp(s[c:], p) == skip_sp(s, c + p) - c, 'shifted')
+    hint(len(s[c:]) == len(s) - c)
+    hint(implies(c + p < len(s), s[c:][p] == s[c + p]))
+    induct(m)
+    generalize(p)
+    measure(m, len(s) - c - p)
+
+
+@lemma
+def qclose_suffix(s: Str, c: Int, p: Int, m: Int):
+    props('C18')
+    requires(0 <= c and 0 <= p and c + p <= len(s) and m == len(s) - c - p and m >= 0)
+    ensures(qclose(s[c:], p) == (qclose(s, c + p) - c if qclose(s, c + p) != -1 else -1), 'shifted')
+    hint(len(s[c:]) == len(s) - c)
+    hint(implies(c + p < len(s), s[c:][p] == s[c + p]))
+    hint(implies(c + p + 1 < len(s), s[c:][p + 1] == s[c + p + 1]))
+    induct(m, strong=True)
+    generalize(p)
+    measure(m, len(s) - c - p)
+
+
+@lemma
+def qclose_range(s: Str, j: Int, m: Int):
+    # a closing position lies after the interior start and inside the text
+    props('C18')
+    requires(0 <= j and j <= len(s) and m == len(s) - j and m >= 0)
+    ensures(qclose(s, j) == -1 or (j < qclose(s, j) and qclose(s, j) <= len(s)), 'in_range')
+    induct(m, strong=True)
+    generalize(j)
+    measure(m, len(s) - j)
+
+
+@lemma
+def substr_suffix(s: Str, c: Int, a: Int, b: Int):
+    # a slice of a suffix is a slice of the whole text
+    props('C18')
+    requires(0 <= c and c <= len(s) and 0 <= a and a <= b and b <= len(s) - c)
+    ensures(s[c:][a:b] == s[c + a:c + b], 'slice_of_suffix')
+
+
+@lemma
+def char_suffix(s: Str, c: Int, k: Int):
+    props('C18')
+    requires(0 <= c and 0 <= k and c + k < len(s))
+    ensures(s[c:][k] == s[c + k] and len(s[c:]) == len(s) - c, 'character_of_suffix')
+
+
+@lemma
+def contains_char(s: Str, a: Int, b: Int, k: Int):
+    # a character inside a slice is contained in the slice
+    props('C18')
+    requires(0 <= a and a <= k and k < b and b <= len(s))
+    ensures(s[k] in s[a:b], 'contained')
+    hint(s[a:b] == s[a:k] + s[k] + s[k + 1:b])
